@@ -85,8 +85,8 @@ func gen(t *rapid.T) Case {
 			Reverse: rapid.Bool().Draw(t, "reverse"), Axis: rapid.Bool().Draw(t, "axis"),
 			Sep: rapid.SampledFrom([]string{"", "", " ", "\n    "}).Draw(t, "sep"),
 			// free-text names as files have them: commas inside the quotes, or a single character
-			Names: rapid.SampledFrom([]int{0, 0, 0, 1, 1, 2}).Draw(t, "names")}
-		c.Variant = rapid.IntRange(0, 5).Draw(t, "variant")
+			Names: rapid.SampledFrom([]int{0, 0, 0, 1, 1, 2, 3, 3}).Draw(t, "names")}
+		c.Variant = rapid.IntRange(0, 41).Draw(t, "variant")
 		c.Junk = rapid.IntRange(0, 2).Draw(t, "junk") == 1
 		c.Lon, c.Lat = projkit.GenPosition(t, c.D)
 		c.ViaShp = rapid.IntRange(0, 9).Draw(t, "viashp") == 0
@@ -127,7 +127,7 @@ func gen(t *rapid.T) Case {
 		}
 		c.Other = &o
 		c.WKTOpt = projkit.WKTOpts{ESRI: rapid.Bool().Draw(t, "esri"), Authority: rapid.Bool().Draw(t, "auth"), UnitFirst: rapid.Bool().Draw(t, "unitfirst"), Degree: rapid.SampledFrom(projkit.DegreeSpellings).Draw(t, "degree")}
-		c.Variant = rapid.IntRange(0, 5).Draw(t, "variant")
+		c.Variant = rapid.IntRange(0, 41).Draw(t, "variant")
 		c.Lon, c.Lat = projkit.GenPosition(t, c.D)
 	case "equal":
 		c.D = projkit.GenDef(t, projkit.Opts{})
@@ -466,7 +466,8 @@ func TestProp(t *testing.T) {
 			"different length, one parameter changed, one parameter present on one side only, unrelated; and pairs both rendered as WKT with the same PROJCS name - identical, central meridian / false easting / unit / datum changed, unrelated): no panic, symmetric, NewTransform nil iff Equal, and Equal references map WGS84 positions identically. Non-trivial = non-metre unit, " +
 			"TOWGS84 clause, OGC-dialect Albers; name cases; equal cases with different towgs84 lengths or Equal true. Distinct by case hash." +
 			" Round 9: decoy parses between parsing a reference and using it; free-text WKT names with commas or of one character." +
-			" Round 10: in a third of the WKT cases every transformer is asked for five impossible positions before the real one; the web-mercator names are also compared with ESRI's .prj text for them.",
+			" Round 10: in a third of the WKT cases every transformer is asked for five impossible positions before the real one; the web-mercator names are also compared with ESRI's .prj text for them." +
+			" Round 13: a quarter of the WKT texts name a datum given by TOWGS84 as real files do (World_Geodetic_System_1972, North_American_Datum_1927, OSGB_1970_SN, CH1903+ ...: names that begin like or contain a registered one without being one).",
 		Assumptions: []string{"WKT without blanks after commas (as GDAL and ESRI write .prj files)", "definitions that give no datum information are not compared across notations (PROJ.4 text: unknown datum; WKT: always names a datum)"},
 		Gen:         gen,
 		Run:         run,
